@@ -3,6 +3,7 @@ package c06
 import (
 	"fmt"
 	"io"
+	"math"
 	"sort"
 	"strings"
 	"testing/fstest"
@@ -144,6 +145,12 @@ func modelClasses(z *zm.Zone) []string {
 				}
 				if g.Steps() == zm.MaxGenerateSteps {
 					seen["gen:65536-steps"] = true
+				}
+				if g.Stop > 1<<40 {
+					seen["gen:range-near-int64-limit"] = true
+					if g.Stop > math.MaxInt64-g.Step {
+						seen["gen:next-step-would-overflow"] = true
+					}
 				}
 				for _, tp := range []zm.Template{g.LHS, g.RHS} {
 					for _, p := range tp {
